@@ -269,7 +269,7 @@ PROPS = {
         engine="cluster-simulator",
     ),
     "C04": dict(
-        lean_modules=['Swim.Model.Acks', 'Swim.Lemmas.Merge', 'Swim.Props.C19', 'Swim.Props.C18', 'Swim.Props.C04'],
+        lean_modules=['Swim.Model.Acks', 'Swim.Lemmas.Merge', 'Swim.Props.C19', 'Swim.Props.C18', 'Swim.Props.C04', 'Swim.Model.Cluster', 'Swim.Props.Cluster', 'Swim.Props.C04Cluster'],
         tests="^TestC04$",
         timeout_quick=400,
         shards_quick=4,
@@ -278,8 +278,8 @@ PROPS = {
                                   "the simulator transport (non-blocking delivery, latency/loss/duplication/partition injection, net.Pipe streams)",
                                   "math/rand target selection is seeded but goroutine scheduling is not fully deterministic: the recorded outcome is the replay artifact"],
         assumptions=["goroutine scheduling delays and real network timing are not modelled (virtual time)"],
-        level_text='Proof (partial): an ack within the latency bound answers the probe (no suspicion, score moves down); alive claims and self-signed departures never create a suspicion, a timer or a failure record and never touch the score (Lean). Tied by healthy-cluster simulations on the real code.',
-        level_note="Partial: 'responsive' and 'delivered within half the probe timeout' are runtime conditions stated as hypotheses and realised by the simulator; the cluster-level invariant over all interleavings is sampled, not proved. Interpretation: a leave event for a member that itself called Leave is legitimate.",
+        level_text='Proof (partial): an ack within the latency bound answers the probe (no suspicion, score moves down); C04_cluster_history: in the cluster model (any number of nodes running the merge rules over a network that reorders, duplicates, delays and loses claims) every history without an unanswered probe - any interleaving of joins, updates, deliveries, push/pull exchanges, leaves, reaping, timer callbacks - keeps every node free of suspect/dead records and timers with score 0, puts no suspect claim or accusation on the network and reports leave events only for members that called Leave (Lean, induction over histories). Tied by the single-node step harness (state, effects and the content of every claim handed to the broadcast queue) and by healthy-cluster simulations on the real code.',
+        level_note="Partial: 'responsive' and 'delivered within half the probe timeout' are runtime conditions; the theorem takes their consequence (no probe goes unanswered, C04_ack_in_time_no_suspect) as the definition of a healthy history, and the simulator realises them in virtual time. The composition of nodes and network in the cluster model is not itself compared step by step with a multi-node run (the simulator checks the theorem's conclusions on the real code instead). Interpretation: a leave event for a member that itself called Leave is legitimate.",
         engine="cluster-simulator",
     ),
     "C05": dict(
